@@ -420,6 +420,43 @@ def rx_ledger(ctx):
         R.check(ok and 'data' in g and 'self.rx_credits > 0' in g, rule, f'{DLC}.on_uih_frame | credit consumed', 'one rx credit per non-empty data frame, never below zero', 'received data frames do not consume exactly one rx credit', p.loc(uih))
 
 
+def tx_ranking(ctx, rule, loop=None):
+    R, p = ctx.r, ctx.p
+    if loop is None:
+        fn, loop = _process_tx(ctx, rule)
+        if loop is None:
+            return
+    # ranking argument: every iteration either spends a tx credit or is the (single) credit-granting one, so the
+    # loop runs at most tx_credits + 1 times whatever the peer negotiated (an mtu of 0 included).
+    class Rank(paths.Domain):
+        # value: (granting branch taken?, {flag name: True/False/'?'} as tuple, credit spent?)
+        def event(self, node, v):
+            br, flags, dec = v
+            if isinstance(node, ast.Assign) and len(node.targets) == 1 and isinstance(node.targets[0], ast.Name):
+                f = dict(flags)
+                f[node.targets[0].id] = node.value.value if isinstance(node.value, ast.Constant) and isinstance(node.value.value, bool) else '?'
+                return ((br, tuple(sorted(f.items(), key=str)), dec),)
+            if isinstance(node, ast.AugAssign) and dotted(node.target) == 'self.tx_credits' and isinstance(node.op, ast.Sub) and is_const(node.value) and const(node.value) >= 1:
+                return ((br, flags, True),)
+            return (v,)
+
+        def assume(self, atom, truth, v):
+            br, flags, dec = v
+            if norm(atom) == 'rx_credits_needed > 0':
+                if br is None:
+                    return ((truth, flags, dec),)
+                return (v,) if br == truth else ()   # not reassigned before the reset at the end of the body
+            if isinstance(atom, ast.Name) and dict(flags).get(atom.id) in (True, False):
+                return (v,) if dict(flags)[atom.id] == truth else ()
+            return (v,)
+    res = paths.run_block(loop.body, Rank(), (None, (), False))
+    ends = paths.join(res.get('fall', {}), res.get('continue', {}))
+    resets = any(isinstance(x, ast.Assign) and norm(x) == 'rx_credits_needed = 0' and getattr(x, '_parent', None) is loop for x in loop.body)
+    stuck = [' '.join(w) for (br, flags, dec), w in ends.items() if not dec and not (br is True and resets)]
+    R.check(not stuck and bool(ends), rule, f'{DLC}.process_tx | ranking', f'each of the {len(ends)} paths through one iteration spends a tx credit or is the single credit-granting iteration (rx_credits_needed reset to 0)',
+            'an iteration can complete without spending a tx credit and without being the credit-granting one: when nothing is dequeued (mtu 0 negotiated by the peer) the loop never ends', p.loc(loop), stuck[:3])
+
+
 def progress(ctx):
     R, p = ctx.r, ctx.p
     rule = 'C20.progress'
@@ -460,6 +497,7 @@ def progress(ctx):
             parts = sorted(norm(v) for v in t.values)
             ok = parts == sorted(['self.tx_buffer and self.tx_credits > 0', 'rx_credits_needed > 0'])
         R.check(ok, rule, f'{DLC}.process_tx | loop condition', 'runs while data can be sent with a credit or credits must be granted', 'the transmit loop no longer runs exactly while (data and credit) or (grant needed)', p.loc(loop))
+        tx_ranking(ctx, rule, loop)
         dr = [n for n in ast.walk(loop) if isinstance(n, ast.Call) and dotted(n.func) == 'self.drained.set']
         g = [(norm(t_), pol) for c in dr for t_, pol in paths.flat_guards(c, stop=loop) if t_ is not loop.test]
         R.check(len(dr) == 1 and g == [('self.tx_buffer', False)], rule, f'{DLC}.process_tx | drained', 'drained is set when (and only when) the buffer is empty', 'drained is not tied to an empty tx_buffer', p.loc(loop))
@@ -1171,7 +1209,19 @@ def cind_ranges(ctx):
     R.check(ok, rule, f'{HF}.initiate_slc | range expansion', 'a-b is expanded to range(a, b + 1): both ends included', 'the hands-free side does not expand an announced range inclusively', p.loc(slc) if slc else '')
 
 
+def iter_mutation_rule(ctx):
+    from ..iter_mutation import iter_mutation
+    iter_mutation(ctx, 'C20.iter-mutation', ['bumble.rfcomm', 'bumble.hfp'])
+
+
+def identity_rule(ctx):
+    from ..generic_rules import identity_compare
+    identity_compare(ctx, 'C20.identity', ['bumble.rfcomm', 'bumble.hfp'])
+
+
 RULES = [
+    ('C20.identity', identity_rule),
+    ('C20.iter-mutation', iter_mutation_rule),
     ('C20.frame-info', frame_info),
     ('C20.cind-ranges', cind_ranges),
     ('C20.credit-guard', credit_guard),
